@@ -1562,14 +1562,47 @@ def gen_fns(repo):
     sm[('Site', 'multiplicity')] = ('site_multiplicity', 'n')
     out[g.fname] = g.text('fnsSite')
 
+    # ---------------- static dispatch of the generic `S: Shape` methods onto the three shape types
+    DISPATCH = '''/-- `S::intersects` for the shape type the state holds (static dispatch in the crate) -/
+def shape_intersects (s o : Shape α) : Bool :=
+  match s, o with
+  | .line a, .line b => lineshape_intersects a b
+  | .mol a, .mol b => molshape_intersects a b
+  | _, _ => false
+
+/-- `S::area` -/
+def shape_area (s : Shape α) : α :=
+  match s with
+  | .line a => lineshape_area a
+  | .mol a => molshape_area a
+  | .lj _ => ((0 : Nat) : α)
+
+/-- `S::enclosing_radius` -/
+def shape_enclosing_radius (s : Shape α) : α :=
+  match s with
+  | .line a => lineshape_enclosing_radius a
+  | .mol a => molshape_enclosing_radius a
+  | .lj a => ljshape_enclosing_radius a
+
+/-- `S::energy` -/
+def shape_energy (s o : Shape α) : α :=
+  match s, o with
+  | .lj a, .lj b => ljshape_energy a b
+  | _, _ => ((0 : Nat) : α)
+'''
+    g = Group('FnsShapeDispatch.lean', ['Model.Shapes', 'Generated.FnsLineShape', 'Generated.FnsMolShape', 'Generated.FnsLJShape'],
+              'the impls of Shape / Intersect / Potential for LineShape, MolecularShape2, LJShape2 (dispatch only)')
+    g.defs.append(DISPATCH)
+    out[g.fname] = g.text('fnsShapeDispatch')
+
     # ---------------- states: overlap check and the two scores (C01, C02, C03)
-    shape_m = {('Shape', 'transform'): ('Shape.transform', ('st', 'Shape')), ('Shape', 'intersects'): ('Shape.intersects', 'b'),
-               ('Shape', 'energy'): ('Shape.energy', 'f'), ('Shape', 'enclosing_radius'): ('Shape.enclosingRadius', 'f'),
-               ('Shape', 'area'): ('Shape.area', 'f')}
+    shape_m = {('Shape', 'transform'): ('Shape.transform', ('st', 'Shape')), ('Shape', 'intersects'): ('shape_intersects', 'b'),
+               ('Shape', 'energy'): ('shape_energy', 'f'), ('Shape', 'enclosing_radius'): ('shape_enclosing_radius', 'f'),
+               ('Shape', 'area'): ('shape_area', 'f')}
     stenv = {'self': ('self', ('st', 'State'))}
 
     def state_group(fname, tag, rel, ty, extra):
-        g = Group(fname, ['Model.State', 'Generated.FnsLattice', 'Generated.FnsSite'], rel)
+        g = Group(fname, ['Model.State', 'Generated.FnsLattice', 'Generated.FnsSite', 'Generated.FnsShapeDispatch'], rel)
         src = read(repo, rel)
         inherent = impl_block(src, r'impl<S>\s+' + ty + r'<S>\s*where[^{]*\{')
         st_impl = impl_block(src, r'impl<S>\s+State\s+for\s+' + ty + r'<S>\s*where[^{]*\{')
@@ -1752,7 +1785,7 @@ def main():
         files = gen_fns(repo)
     except Exception as e:
         files = {}
-        for n in ('FnsLattice.lean', 'FnsSite.lean', 'FnsPacked.lean', 'FnsPotential.lean', 'FnsLineShape.lean', 'FnsMolShape.lean', 'FnsLJShape.lean', 'FnsDisc.lean', 'FnsLine.lean', 'FnsLJ.lean', 'FnsCell.lean', 'FnsWrap.lean', 'FnsAccept.lean', 'FnsBuild.lean', 'FnsLoopTail.lean', 'FnsInnerStep.lean', 'FnsBasis.lean'):
+        for n in ('FnsShapeDispatch.lean', 'FnsLattice.lean', 'FnsSite.lean', 'FnsPacked.lean', 'FnsPotential.lean', 'FnsLineShape.lean', 'FnsMolShape.lean', 'FnsLJShape.lean', 'FnsDisc.lean', 'FnsLine.lean', 'FnsLJ.lean', 'FnsCell.lean', 'FnsWrap.lean', 'FnsAccept.lean', 'FnsBuild.lean', 'FnsLoopTail.lean', 'FnsInnerStep.lean', 'FnsBasis.lean'):
             files[n] = '/- GENERATED: rs2lean failed: %s -/\nnamespace PV.Gen\nend PV.Gen\n' % str(e).replace('-/', '- /')
     for name, text in files.items():
         path = os.path.join(outdir, name)
